@@ -14,7 +14,8 @@ def one(d):
     subprocess.check_call(["git", "-C", "/repo", "worktree", "add", "-q", "--detach", wt, "HEAD"])
     viol, closed = [], []
     try:
-        if subprocess.call(["git", "-C", wt, "apply", os.path.join(d, "patch.diff")]) != 0:
+        if subprocess.call(["git", "-C", wt, "apply", os.path.join(d, "patch.diff")], stderr=subprocess.DEVNULL) != 0 and \
+                subprocess.call(["git", "-C", wt, "apply", "--3way", os.path.join(d, "patch.diff")], stderr=subprocess.DEVNULL) != 0:
             return os.path.basename(d), None, None
         env = dict(os.environ, VERIF_REPO=wt, VERIF_EVIDENCE_DIR=ev, VERIF_NO_SELFTEST="1")
         for i in range(1, 21):
